@@ -157,7 +157,7 @@ def main(argv):
             progs = []
             scheds = []
             lines.append(r["line"])
-            meta[r["line"].split()[0]] = {"kind": r["kind"], "line": r["line"]}
+            meta[r["line"].split()[0]] = {k: v for k, v in r.items() if k != "impl_line"}
     else:
         for i, (s, p) in enumerate(AL_DIRECTED):
             add_prog("AL", 16 if i % 2 == 0 else 32, s, p, True)
